@@ -19,7 +19,9 @@ RULE = (
     "all 625 pairs of positions over the coordinate grid {0,1,2,2^31-2,2^31-1}^2 x 6 operators (exhaustive), random "
     "uinteger pairs (Hypothesis), ranges/locations built from generated positions and URIs, and a pool of foreign "
     "objects; oracle: tuple comparison of (line, character), trichotomy, component-wise equality, ==False/!=True/"
-    "TypeError against foreign objects, exact repr format. non-trivial = pair with a differing or boundary coordinate; "
+    "TypeError against foreign objects (incl. look-alikes with the same attribute names), exact repr format; plus a "
+    "RuleBasedStateMachine over mutable positions/ranges (create, mutate a field in place, compare): comparisons must "
+    "follow the current field values. non-trivial = pair with a differing or boundary coordinate; "
     "distinct = the coordinate tuple"
 )
 
@@ -181,8 +183,71 @@ def run(ctx: Ctx) -> None:
             distinct.add((n1, repr(type(f))))
     samples.append({"foreign": [repr(f) for f in foreign[:6]]})
 
+    # 4. histories: positions/ranges/locations are mutable objects - comparisons must follow the *current* fields
+    from hypothesis.stateful import RuleBasedStateMachine, precondition, rule, run_state_machine_as_test
+    hist = {"steps": 0, "mutations": 0, "comparisons": 0}
+
+    class Mutable(RuleBasedStateMachine):
+        def __init__(self):
+            super().__init__()
+            self.pos: List[Any] = []
+            self.rng: List[Any] = []
+            self.log: List[Any] = []
+
+        @rule(l=coord, c=coord)
+        def new_position(self, l, c):
+            self.pos.append(Position(line=l, character=c))
+            self.log.append(["pos", l, c])
+
+        @precondition(lambda self: len(self.pos) >= 2)
+        @rule(i=st.integers(0, 50), j=st.integers(0, 50), u=uri)
+        def new_range(self, i, j, u):
+            a, b = self.pos[i % len(self.pos)], self.pos[j % len(self.pos)]
+            r = Range(start=a, end=b)
+            self.rng.append((r, Location(uri=u, range=r), u))
+            self.log.append(["range", i % len(self.pos), j % len(self.pos)])
+
+        @precondition(lambda self: self.pos)
+        @rule(i=st.integers(0, 50), field=st.sampled_from(["line", "character"]), v=coord)
+        def mutate(self, i, field, v):
+            setattr(self.pos[i % len(self.pos)], field, v)
+            hist["mutations"] += 1
+            self.log.append(["set", i % len(self.pos), field, v])
+
+        @precondition(lambda self: self.pos)
+        @rule(i=st.integers(0, 50), j=st.integers(0, 50))
+        def compare(self, i, j):
+            nonlocal evaluations
+            a, b = self.pos[i % len(self.pos)], self.pos[j % len(self.pos)]
+            ta, tb = (a.line, a.character), (b.line, b.character)
+            for name, op in OPS:
+                evaluations += 1
+                hist["comparisons"] += 1
+                try:
+                    if op(a, b) is not op(ta, tb):
+                        fail("wrong-order-after-history", f"Position{name}", f"{ta} {name} {tb} gave {op(a, b)!r} after {self.log[-6:]}", {"history": self.log[-12:]})
+                except Exception as e:
+                    fail(f"raises:{type(e).__name__}", f"Position{name}", str(e)[:100], {"history": self.log[-12:]})
+            if repr(a) != f"{ta[0]}:{ta[1]}":
+                fail("wrong-repr", "Position", f"repr {a!r} for {ta}", {"history": self.log[-12:]})
+            for (r1, l1, u1) in self.rng[-3:]:
+                for (r2, l2, u2) in self.rng[-3:]:
+                    evaluations += 1
+                    t1 = ((r1.start.line, r1.start.character), (r1.end.line, r1.end.character))
+                    t2 = ((r2.start.line, r2.start.character), (r2.end.line, r2.end.character))
+                    if (r1 == r2) is not (t1 == t2) or (l1 == l2) is not (t1 == t2 and u1 == u2):
+                        fail("wrong-equality-after-history", "Range/Location", f"{t1} vs {t2} after {self.log[-6:]}", {"history": self.log[-12:]})
+            hist["steps"] += 1
+            distinct.add(("hist", ta, tb, len(self.log)))
+
+    run_state_machine_as_test(
+        hypothesis.seed(derive_seed(ctx.seed, "C20", "hist"))(Mutable),
+        settings=settings(max_examples=60 if ctx.quick else 1500, stateful_step_count=25, **common))
+    samples.append({"history_rules": ["new_position", "new_range", "mutate", "compare"], "counts": dict(hist)})
+
     ctx.coverage.update({
         "evaluations": evaluations, "distinct_nontrivial": len(distinct), "rule": RULE, "samples": samples,
+        "mutation_histories": dict(hist),
         "grid_pairs_exhaustive": grid_pairs, "random_pairs": n, "random_range_location_pairs": n,
         "lookalike_foreign_objects": n_lookalikes,
         "exhaustive": False,
